@@ -468,6 +468,43 @@ func init() {
 			}
 		}},
 		Stream{"structured.memberProduct", func(c *Ctx) { memberProduct(c, "structured.memberProduct") }},
+		Stream{"ceremony.ownStorage", func(c *Ctx) {
+			// short histories over the library's OWN storage (NewInMemoryCredentialStorage), handed to the relying party as it is: register,
+			// register the same response again, re-register the id by its owner and by another user, authenticate in between — every call returns
+			n := c.N(3, 100)
+			for i := 0; i < n; i++ {
+				for _, f := range []string{"none", "packed-self", "fido-u2f", "packed-x5c"} {
+					r := c.R
+					origin := pick(r, honestOrigins)
+					st := webauthn.NewInMemoryCredentialStorage()
+					rp := webauthn.NewRelyingParty(origin, st)
+					user, other := r.Bytes(6), r.Bytes(6)
+					id := r.Bytes(16)
+					mk := func(owner []byte) (*RegBuilt, M) {
+						s := newRegSpec(r, f, pick(r, credAlgsFor(f)))
+						s.Origin, s.Client, s.UserID, s.CredID = origin, origin, owner, id
+						s.AttAlg = pick(r, attAlgsFor(f))
+						s.Inert = nil
+						b := buildRegistration(r, s)
+						return b, b.Op()
+					}
+					b1, reg1 := mk(user)
+					b2, reg2 := mk(user)
+					_, reg3 := mk(other)
+					auth := func(b *RegBuilt) M {
+						as := newAuthSpec(r, origin, b.Cred, id, user, b.Cred.COSE(true))
+						as.Inert = nil
+						return buildAssertion(r, as)
+					}
+					steps := []M{reg1, auth(b1), reg1, reg2, auth(b2), auth(b1), reg3, auth(b2), reg1}
+					for k, step := range steps {
+						res := goCeremonyFromOpPlain(step).run(rp)
+						step["_dev"] = fmt.Sprintf("ownStorage/%s/step%d", f, k)
+						c.Compare("ceremony.ownStorage", step, res, M{"ok": false}, fmt.Sprintf("%s/step%d/%v", f, k, step["op"]), true)
+					}
+				}
+			}
+		}},
 		Stream{"structured.retyped", func(c *Ctx) {
 			// a credential key whose algorithm belongs to another key type, and (android-key, apple) a certificate key of another kind than
 			// the credential key, through registration; whatever registration stored is then used by an authentication: none of it may panic
